@@ -125,6 +125,11 @@ pub fn is_authorized_batched(
         // check that all requested entities were loaded and return error otherwise
 
         for (id, e_option) in loaded_entities {
+            // a loader may return more than was requested, including entities
+            // it already delivered in an earlier iteration; those are already loaded
+            if entities.contains_entity(&id) {
+                continue;
+            }
             match e_option {
                 Some(e) => {
                     entities.add_entities(
